@@ -55,7 +55,7 @@ Definition chain_model_lp {P A} (others : R -> R) (D : P -> dist_inst) (ls : lis
 Ltac c14_unfold :=
   cbv beta iota zeta delta
     [obs_close obs_none at_init at_val nth_val chain_model_lp cScale cShift cSoftplusH cSigmoidLH
-     link_tdist chain_dist chain_logpdf chain_up chain_init dist_of_td td_default l_path l_spec nth_error last
+     link_tdist chain_dist chain_logpdf chain_up chain_up_v chain_init dist_of_td td_default l_path l_spec nth_error last
      clsScale clsShift clsSoftplusH clsSigmoidLH clsExp child_normal no_child
      transform_by var_transform transform_inst transform_cls transform_dep
      inst_tdist cls_tdist dep_tdist resolve
